@@ -43,6 +43,19 @@ Definition sync_sx (a : action) : list sx :=
   | ARecvStreamClose => [SL [SZ 8]]
   | AQuit => [SL [SZ 9]]
   end.
+(* The closing of the keepalive quit channel is observed at two moments only: when the
+   Disconnected handler starts (closed by then or not) and when the loop has returned.
+   Its position relative to the other callbacks is not observable and not rendered: a
+   quit that precedes the Disconnected event is shown immediately before that event. *)
+Fixpoint sync_list (pending : bool) (tr : list action) : list sx :=
+  match tr with
+  | [] => if pending then [SL [SZ 9]] else []
+  | AQuit :: r => if existsb (fun a => match a with AEvDisconnected _ => true | _ => false end) r
+                  then sync_list true r else SL [SZ 9] :: sync_list pending r
+  | AEvDisconnected inb :: r =>
+      (if pending then [SL [SZ 9]] else []) ++ SL [SZ 5; SN inb] :: sync_list false r
+  | a :: r => sync_sx a ++ sync_list pending r
+  end.
 Definition async_sx (a : action) : list sx :=
   match a with ARouteAsync i => [item_sx i] | _ => [] end.
 
@@ -62,6 +75,6 @@ Definition run_typed (i : rinput) : sx :=
             else crecv (r_inb i) 0 (r_wfail i) (r_items i) in
   (* third component: goroutines of the library left after the loop ended; the model's
      threads all terminate (crecv/precv are structurally recursive), so 0 *)
-  SL [SL (flat_map sync_sx tr); SL (flat_map async_sx tr); SZ 0].
+  SL [SL (sync_list false tr); SL (flat_map async_sx tr); SZ 0].
 
 Definition run_recv : sx -> sx := with_input dec_input run_typed.
